@@ -287,9 +287,12 @@ def oracle(case):
             # every whole-structure query is asked FIRST on its own deep copy of the state reached by the history,
             # so that no earlier query of the oracle has compressed paths for it
             probe = copy.deepcopy(uf)
+            missing = [a for a in present if a not in uf]
+            if missing:
+                out.append({"key": "C20/uf/contains", "what": "an element that was added (or named in a union) is not in the structure",
+                            "detail": f"step {step} op {o}: missing {missing[:3]}"})
+                return out
             for a in present:
-                if a not in uf:
-                    out.append({"key": "C20/uf/contains", "what": "present element not contained", "detail": str(a)})
                 for b in present:
                     if probe.connected(a, b) != (lab[a] == lab[b]):
                         out.append({"key": "C20/uf/connected", "what": "connected differs from union-chain closure",
